@@ -17,7 +17,7 @@
 (* wall are the unions over an operation's sections.  The step lists are   *)
 (* NOT written by hand: /verif/tools/lockextract computes them from the    *)
 (* current source tree at check time and emits the root module (LocksOps)  *)
-(* that EXTENDS this one and defines OpsDef / LockNamesDef.                *)
+(* that defines OpsDef / LockNamesDef / ... and INSTANCEs this module.     *)
 (*                                                                         *)
 (* The model: NSlots goroutines each run one operation to completion under *)
 (* sync.RWMutex semantics (sync.Mutex = only mode "W").  Which operations  *)
@@ -47,7 +47,8 @@ CONSTANTS Ops,          \* sequence of [name, threads, steps, rall, wall]
           SerialPairs,  \* extra pairs of operation names that never overlap
           NSlots,       \* goroutines in flight (2 = all pairs, 3 = triples)
           OnlyOps,      \* {} or a set of operation indexes: restrict Init to them
-          Report        \* TRUE: print every conflict as a CANDIDATE line instead of failing
+          Report,       \* TRUE: print every conflict as a CANDIDATE line instead of failing
+          Prune         \* TRUE: do not start operation sets that share no written class
 
 VARIABLES op,    \* op[s]  : index into Ops of the operation goroutine s runs
           pc,    \* pc[s]  : index of its NEXT step (Len+1 = finished)
@@ -86,7 +87,7 @@ Init ==
     /\ op \in [Slots -> 1..N]
     /\ \A s \in Slots : s + 1 \in Slots => op[s] <= op[s + 1]
     /\ \A s, t \in Slots : s < t => MayOverlap(op[s], op[t])
-    /\ \E s, t \in Slots : s < t /\ CanConflict(op[s], op[t])
+    /\ Prune => \E s, t \in Slots : s < t /\ CanConflict(op[s], op[t])
     /\ OnlyOps # {} => \A s \in Slots : op[s] \in OnlyOps
     /\ pc = [s \in Slots |-> 1]
     /\ rd = [l \in LockNames |-> {}]
